@@ -328,9 +328,14 @@ type renderTable interface {
 }
 
 type wrapper struct {
-	kind string
-	obj  renderTable
-	core int
+	kind  string
+	obj   renderTable
+	core  int
+	decor decoration.Decoration // what the harness set on a text wrapper (for the oracles)
+	html  struct {
+		id, cls, cap string
+		rc           map[int]string
+	}
 }
 
 type event struct {
@@ -770,10 +775,10 @@ func classify(err error) string {
 	}
 	m := err.Error()
 	switch {
-	case strings.Contains(m, "can't emit a table with"):
-		return "err:no-columns"
 	case strings.Contains(m, "require headers") || strings.Contains(m, "without headers"):
 		return "err:no-headers"
+	case strings.Contains(m, "can't emit a table with"):
+		return "err:no-columns"
 	case strings.Contains(m, "headers for keys, only found"):
 		return "err:too-few-headers"
 	case strings.Contains(m, "has an empty header"):
@@ -907,7 +912,7 @@ func (x *Exec) makeWrapper(kind string, inner tabular.Table, core int) string {
 	default:
 		panic("bad kind " + kind)
 	}
-	x.wrappers = append(x.wrappers, wrapper{kind, o, core})
+	x.wrappers = append(x.wrappers, wrapper{kind: kind, obj: o, core: core, decor: decoration.UTF8BoxHeavy()})
 	return fmt.Sprintf("W%d", len(x.wrappers)-1)
 }
 
@@ -974,6 +979,110 @@ func (x *Exec) do1(line string) (res string, leanLine string) {
 	case "newtable":
 		x.tables = append(x.tables, tabular.New())
 		return fmt.Sprintf("T%d", len(x.tables)-1), line
+	case "newvia": // X.New(): a wrapper with a fresh core table inside
+		var o renderTable
+		switch toks[1] {
+		case "csv":
+			o = csv.New()
+		case "json":
+			o = tjson.New()
+		case "html":
+			o = thtml.New()
+		case "markdown":
+			o = markdown.New()
+		case "text":
+			o = texttable.New()
+		}
+		var core *tabular.ATable
+		switch v := o.(type) {
+		case *csv.CSVTable:
+			core = v.Table.(*tabular.ATable)
+		case *tjson.JSONTable:
+			core = v.Table.(*tabular.ATable)
+		case *thtml.HTMLTable:
+			core = v.Table.(*tabular.ATable)
+		case *markdown.MarkdownTable:
+			core = v.Table.(*tabular.ATable)
+		case *texttable.TextTable:
+			core = v.Table.(*tabular.ATable)
+		}
+		x.tables = append(x.tables, core)
+		x.wrappers = append(x.wrappers, wrapper{kind: toks[1], obj: o, core: len(x.tables) - 1, decor: decoration.UTF8BoxHeavy()})
+		return fmt.Sprintf("T%d W%d", len(x.tables)-1, len(x.wrappers)-1), line
+	case "autonew": // auto.New(style)
+		o := auto.New(unhx(toks[1]))
+		var core *tabular.ATable
+		switch v := o.(type) {
+		case *csv.CSVTable:
+			core = v.Table.(*tabular.ATable)
+		case *tjson.JSONTable:
+			core = v.Table.(*tabular.ATable)
+		case *thtml.HTMLTable:
+			core = v.Table.(*tabular.ATable)
+		case *markdown.MarkdownTable:
+			core = v.Table.(*tabular.ATable)
+		case *texttable.TextTable:
+			core = v.Table.(*tabular.ATable)
+		}
+		x.tables = append(x.tables, core)
+		x.wrappers = append(x.wrappers, wrapper{kind: kindOf(o), obj: o, core: len(x.tables) - 1})
+		return fmt.Sprintf("T%d W%d kind=%s", len(x.tables)-1, len(x.wrappers)-1, kindOf(o)), line
+	case "prender": // package-level X.Render(ref): ref is T<n> or W<n>
+		var ref tabular.Table
+		if toks[2][0] == 'T' {
+			ref = x.tables[idOf(toks[2])]
+			x.curTable = idOf(toks[2])
+		} else {
+			ref = x.wrappers[idOf(toks[2])].obj
+			x.curTable = x.wrappers[idOf(toks[2])].core
+		}
+		var str string
+		var err error
+		var buf bytes.Buffer
+		var err2 error
+		switch toks[1] {
+		case "csv":
+			str, err = csv.Render(ref)
+			err2 = csv.RenderTo(ref, &buf)
+		case "json":
+			str, err = tjson.Render(ref)
+			err2 = tjson.RenderTo(ref, &buf)
+		case "markdown":
+			str, err = markdown.Render(ref)
+			err2 = markdown.RenderTo(ref, &buf)
+		case "text":
+			str, err = texttable.Render(ref)
+			err2 = texttable.RenderTo(ref, &buf)
+		case "html":
+			str, err = thtml.Wrap(ref).Render()
+			err2 = thtml.Wrap(ref).RenderTo(&buf)
+		}
+		return fmt.Sprintf("res=%s str=%s res2=%s out2=%s", classify(err), hx(str), classify(err2), hx(buf.String())), line
+	case "autorender": // auto.Render(ref, style) and auto.RenderTo
+		var ref tabular.Table
+		if toks[1][0] == 'T' {
+			ref = x.tables[idOf(toks[1])]
+			x.curTable = idOf(toks[1])
+		} else {
+			ref = x.wrappers[idOf(toks[1])].obj
+			x.curTable = x.wrappers[idOf(toks[1])].core
+		}
+		str, err := auto.Render(ref, unhx(toks[2]))
+		var buf bytes.Buffer
+		err2 := auto.RenderTo(ref, &buf, unhx(toks[2]))
+		return fmt.Sprintf("res=%s str=%s res2=%s out2=%s", classify(err), hx(str), classify(err2), hx(buf.String())), line
+	case "populate":
+		d := parseDecor(toks[1])
+		d.Populate()
+		return showDecor(d), line
+	case "lenobs":
+		s0 := unhx(toks[1])
+		var ls []string
+		for _, l := range length.Lines(s0) {
+			ls = append(ls, hx(l))
+			x.needDW(l)
+		}
+		return fmt.Sprintf("lines=%s lb=%d lr=%d lc=%d sb=%d sr=%d", joinC(ls), length.LongestLineBytes(s0), length.LongestLineRunes(s0), length.LongestLineCells(s0), length.StringBytes(s0), length.StringRunes(s0)), line
 	case "wrap":
 		t := idOf(toks[2])
 		return x.makeWrapper(toks[1], x.tables[t], t), line
@@ -983,10 +1092,12 @@ func (x *Exec) do1(line string) (res string, leanLine string) {
 	case "setdecor":
 		tt := x.wrappers[idOf(toks[1])].obj.(*texttable.TextTable)
 		tt.SetDecoration(parseDecor(toks[2]))
+		x.wrappers[idOf(toks[1])].decor = parseDecor(toks[2])
 		return "ok", line
 	case "setdecornamed":
 		tt := x.wrappers[idOf(toks[1])].obj.(*texttable.TextTable)
 		r, err := tt.SetDecorationNamed(unhx(toks[2]))
+		x.wrappers[idOf(toks[1])].decor = decoration.Named(unhx(toks[2]))
 		if r != tt {
 			return "badchain", line
 		}
@@ -997,12 +1108,15 @@ func (x *Exec) do1(line string) (res string, leanLine string) {
 	case "sethtml":
 		ht := x.wrappers[idOf(toks[1])].obj.(*thtml.HTMLTable)
 		ht.Id, ht.Class, ht.Caption = unhx(kv(toks, "id")), unhx(kv(toks, "cls")), unhx(kv(toks, "cap"))
+		hw := &x.wrappers[idOf(toks[1])]
+		hw.html.id, hw.html.cls, hw.html.cap, hw.html.rc = ht.Id, ht.Class, ht.Caption, nil
 		if rc := kv(toks, "rc"); rc != "~" {
 			tbl := map[int]string{}
 			for _, e := range listOf(rc) {
 				p := strings.Split(e, ":")
 				tbl[atoi(p[0])] = unhx(p[1])
 			}
+			hw.html.rc = tbl
 			ht.SetRowClassGenerator(func(n int, ctx interface{}) template.HTMLAttr {
 				rcCalls = append(rcCalls, n)
 				return template.HTMLAttr(tbl[n])
@@ -1215,7 +1329,7 @@ func (x *Exec) do1(line string) (res string, leanLine string) {
 		t := idOf(toks[1])
 		o := auto.Wrap(x.tables[t], unhx(toks[2]))
 		k := kindOf(o)
-		x.wrappers = append(x.wrappers, wrapper{k, o, t})
+		x.wrappers = append(x.wrappers, wrapper{kind: k, obj: o, core: t})
 		nodecor := false
 		if tt, ok := o.(*texttable.TextTable); ok {
 			nodecor = strings.Contains(fmt.Sprintf("%#v", tt), "decor:decoration.Decoration{Horizontal:\"\", Vertical:\"\", CrossPiece:\"\", TopDown:\"\", VBorder:\"\", HOuter:\"\", HRule:\"\", VHeader:\"\", VBodyBorder:\"\", VBodyInner:\"\", TopLeft:\"\", TopRight:\"\", BottomLeft:\"\", BottomRight:\"\", LeftBodyRule:\"\", RightBodyRule:\"\", HTopDown:\"\", BTopDown:\"\", BBottomUp:\"\", HBCross:\"\", HBLeft:\"\", HBRight:\"\", isBoxless:false}")
